@@ -78,7 +78,7 @@ class _Patched:
                 if c is not None:
                     x = c
             return _RealTag(x)
-        models = dict(std("struct", "array", "bytesjoin", "int"), Tag=Tag)
+        models = dict(std("struct", "array", "bytesjoin", "int", "len"), Tag=Tag)
         self._saved = []
         for modname, names in self.PATCH:
             m = importlib.import_module(modname)
@@ -560,10 +560,11 @@ class StructTableRoundTrip(_Patched, Contract):
     qualname = "KernTable_format_0.compile"
     props = ("C02", "C01")
     shadow_mode = "real"
-    variants = ("kern0", "gasp", "VORG", "LTSH", "avar")
+    variants = ("kern0", "gasp", "VORG", "LTSH", "avar", "fvar")
     level = "PF"
     max_paths = 20000
     PATCH = _Patched.PATCH + (
+        ("fontTools.ttLib.tables._f_v_a_r", ("struct", "bytesjoin", "len")),
         ("fontTools.ttLib.tables._k_e_r_n", ("struct", "array")),
         ("fontTools.ttLib.tables._g_a_s_p", ("struct", "int")),
         ("fontTools.ttLib.tables.V_O_R_G_", ("struct", "bytesjoin")),
@@ -575,10 +576,13 @@ class StructTableRoundTrip(_Patched, Contract):
         import importlib
         from pyvc.models import fixed_tools
         ft = fixed_tools()
-        m = importlib.import_module("fontTools.ttLib.tables.otConverters")
-        for n, v in (("fl2fi", ft.floatToFixed), ("fi2fl", ft.fixedToFloat)):
-            self._saved.append((m, n, getattr(m, n)))
-            setattr(m, n, v)
+        from pyvc.models import sstruct_shadow
+        for modname, pairs in (("fontTools.ttLib.tables.otConverters", (("fl2fi", ft.floatToFixed), ("fi2fl", ft.fixedToFloat))),
+                               ("fontTools.ttLib.tables._f_v_a_r", (("fl2fi", ft.floatToFixed), ("fi2fl", ft.fixedToFloat), ("sstruct", sstruct_shadow())))):
+            m = importlib.import_module(modname)
+            for n, v in pairs:
+                self._saved.append((m, n, m.__dict__.get(n, _ABSENT)))
+                setattr(m, n, v)
 
     def args(self, S, variant):
         from fontTools.ttLib import newTable
@@ -606,6 +610,21 @@ class StructTableRoundTrip(_Patched, Contract):
         elif variant == "LTSH":
             t = newTable("LTSH")
             t.yPels = {g: S.int("pel_" + g, 0, 255) for g in order}
+        elif variant == "fvar":
+            from fontTools.ttLib.tables._f_v_a_r import Axis, NamedInstance
+            t = newTable("fvar")
+            fx = lambda n: (lambda k: (k / 65536 if S.concrete else SymNum(k.real() / 65536), k))(S.int(n, -2 ** 31, 2 ** 31 - 1))
+            ax = Axis()
+            ax.axisTag = "wght"
+            (ax.minValue, kmin), (ax.defaultValue, kdef), (ax.maxValue, kmax) = fx("min"), fx("default"), fx("max")
+            ax.flags, ax.axisNameID = S.int("flags", 0, 65535), S.int("nameid", 0, 65535)
+            inst = NamedInstance()
+            inst.subfamilyNameID, inst.flags = S.int("subfam", 0, 65535), 0
+            inst.postscriptNameID = S.int("psname", 0, 65535)
+            coord, kc = fx("coord")
+            inst.coordinates = {"wght": coord}
+            t.axes, t.instances = [ax], [inst]
+            self._fv = dict(kmin=kmin, kdef=kdef, kmax=kmax, kc=kc)
         else:
             t = newTable("avar")
             t.majorVersion, t.minorVersion = 1, 0
@@ -656,6 +675,20 @@ class StructTableRoundTrip(_Patched, Contract):
                        *[And(eq(u16(b, 8 + 4 * i), g), eq(s16(b, 10 + 4 * i), y)) for i, (g, y) in enumerate(recs)])
         if v == "LTSH":
             return And(len(b) == 4 + 4, eq(u16(b, 0), 0), eq(u16(b, 2), 4), *[eq(b[4 + i], t.yPels[g]) for i, g in enumerate(a.font.order)])
+        if v == "fvar":
+            def s32(o):
+                x = ((b[o] * 256 + b[o + 1]) * 256 + b[o + 2]) * 256 + b[o + 3]
+                return Ite(x >= 2 ** 31, x - 2 ** 32, x)
+            ax, inst, k = t.axes[0], t.instances[0], self._fv
+            has_ps = Not(eq(inst.postscriptNameID, 0xFFFF))
+            isz = 4 + 4 + (2 if len(b) == 16 + 20 + 10 else 0)
+            return And(Ite(has_ps, len(b) == 16 + 20 + 10, len(b) == 16 + 20 + 8),
+                       eq(u16(b, 0), 1), eq(u16(b, 2), 0), eq(u16(b, 4), 16), eq(u16(b, 6), 2), eq(u16(b, 8), 1), eq(u16(b, 10), 20),
+                       eq(u16(b, 12), 1), eq(u16(b, 14), isz),
+                       *[eq(b[16 + i], ord(c)) for i, c in enumerate("wght")],
+                       eq(s32(20), k["kmin"]), eq(s32(24), k["kdef"]), eq(s32(28), k["kmax"]), eq(u16(b, 32), ax.flags), eq(u16(b, 34), ax.axisNameID),
+                       eq(u16(b, 36), inst.subfamilyNameID), eq(u16(b, 38), 0), eq(s32(40), k["kc"]),
+                       Implies(has_ps, eq(u16(b, 44) if len(b) >= 46 else 0, inst.postscriptNameID)))
         # avar: version 1.0, reserved, axisCount 1, positionMapCount 4, then (from, to) F2Dot14 pairs ascending by from
         ks, vs = self._ks, self._vs
         return And(len(b) == 8 + 2 + 16, eq(u16(b, 0), 1), eq(u16(b, 2), 0), eq(u16(b, 6), 1), eq(u16(b, 8), 4),
@@ -675,6 +708,11 @@ class StructTableRoundTrip(_Patched, Contract):
                        *[eq(u.VOriginRecords[g], t.VOriginRecords[g]) for g in t.VOriginRecords])
         if v == "LTSH":
             return And(sorted(u.yPels) == sorted(t.yPels), *[eq(u.yPels[g], t.yPels[g]) for g in t.yPels])
+        if v == "fvar":
+            ax, bx, inst, binst = t.axes[0], u.axes[0], t.instances[0], u.instances[0]
+            return And(str(bx.axisTag) == "wght", eq(bx.minValue, ax.minValue), eq(bx.defaultValue, ax.defaultValue), eq(bx.maxValue, ax.maxValue),
+                       eq(bx.flags, ax.flags), eq(bx.axisNameID, ax.axisNameID), eq(binst.subfamilyNameID, inst.subfamilyNameID),
+                       eq(binst.coordinates["wght"], inst.coordinates["wght"]), eq(binst.postscriptNameID, inst.postscriptNameID))
         want = sorted(((k, val) for k, val in t.segments["wght"].items()), key=lambda kv: 0)  # compared as multisets below
         got = list(u.segments["wght"].items())
         if len(got) != 4:
